@@ -87,11 +87,35 @@ def run(tier, seed, replay):
             if isinstance(x, _ast.Attribute) and isinstance(x.ctx, (_ast.Store, _ast.Del)) and x.attr in writers:
                 writers[x.attr].add(f"{rel}:{_scan.enclosing_function(x, par)}")
     allowed = {
-        "functions": {"norminette/scope.py:GlobalScope.__init__", "norminette/rules/is_func_declaration.py:IsFuncDeclaration.run"},
+        # CheckBlockStart.run decrements it only under `context.scope.tmp_scope is not None`; tmp_scope
+        # is never assigned anything but None (obligation frame.scope.tmp_scope_is_always_None)
+        "functions": {"norminette/scope.py:GlobalScope.__init__", "norminette/rules/is_func_declaration.py:IsFuncDeclaration.run",
+                      "norminette/rules/check_block_start.py:CheckBlockStart.run"},
         "vars": {"norminette/scope.py:Scope.__init__", "norminette/rules/check_variable_declaration.py:CheckVariableDeclaration.run"},
         "lines": {"norminette/scope.py:Scope.__init__", "norminette/scope.py:Scope.outer",
                   "norminette/rules/check_line_count.py:CheckLineCount.run"},
     }
+    non_none = []
+    guarded = True
+    for rel, tree in _scan.iter_modules(chk.repo):
+        for x in _ast.walk(tree):
+            if isinstance(x, _ast.Assign) and any(isinstance(t, _ast.Attribute) and t.attr == "tmp_scope" for t in x.targets) \
+                    and not (isinstance(x.value, _ast.Constant) and x.value.value is None):
+                non_none.append(f"{rel}:{x.lineno}")
+    cbs = chk.repo.find_function("norminette/rules/check_block_start.py:CheckBlockStart.run")
+    for x in _ast.walk(cbs.node):
+        if isinstance(x, _ast.AugAssign) and isinstance(x.target, _ast.Attribute) and x.target.attr == "functions":
+            par = _scan.parents(cbs.node)
+            n, ok_guard = x, False
+            while n in par:
+                n = par[n]
+                if isinstance(n, _ast.If) and "tmp_scope is not None" in _ast.unparse(n.test):
+                    ok_guard = True
+            guarded = guarded and ok_guard
+    chk.frame("frame.scope.tmp_scope_is_always_None", not non_none and guarded, {"non_none_assignments": non_none,
+                                                                              "decrement_guarded_by_tmp_scope": guarded},
+              what="CheckBlockStart's `functions -= 1` is reachable: tmp_scope can be set, or the decrement is no longer "
+                   "guarded by `tmp_scope is not None`")
     for k in writers:
         extra = sorted(writers[k] - allowed[k])
         chk.frame(f"frame.scope.{k}.written_only_by_its_counter", not extra, {"writers": sorted(writers[k])},
